@@ -91,6 +91,16 @@ theorem readRaw_inpkt (c : Cli) (d : List Nat) : (readRaw c d).1.inpkt = c.inpkt
         · split <;> (split <;> rfl)
 
 
+theorem rawKeepalive_rx (c : Cli) :
+    (rawKeepalive c).1.inpkt = c.inpkt ∧ (rawKeepalive c).1.conn = c.conn ∧ tunws (rawKeepalive c).2 = [] := by
+  unfold rawKeepalive; split
+  · exact ⟨rfl, rfl, rfl⟩
+  · exact ⟨rfl, rfl, rfl⟩
+
+theorem after_rx (evs : List CEvent) (r : CState × List CEvent × Next) (h : tunws evs = []) :
+    (after evs r).1 = r.1 ∧ tunws (after evs r).2.1 = tunws r.2.1 := by
+  unfold after; exact ⟨rfl, by dsimp only; rw [tunws_append, h]; rfl⟩
+
 /-- what one step of the client thread is, as far as `inpkt` and the tun device are concerned -/
 inductive CEff (st : CState) (inp : CInput) : Prop where
   /-- neither `inpkt` nor the tun device touched -/
@@ -112,9 +122,13 @@ theorem tunnelStep_eff (c : Cli) (ph : Phase) (inp : CInput) (hph : ph = .tunnel
       if !c'.running then (⟨c', .idle⟩, [], .finished 0)
       else match (fire c (selectOf c) inp).2 with
         | .timeout => settle (timeoutBranch c')
-        | .tun frame => settle (tunnelTun c' frame)
-        | .dns inp => settle (tunnelDnsInput c' inp) := by
+        | .tun frame => after (rawKeepalive c').2 (settle (tunnelTun (rawKeepalive c').1 frame))
+        | .dns inp => after (rawKeepalive c').2 (settle (tunnelDnsInput (rawKeepalive c').1 inp)) := by
     rw [← hc']; rfl
+  obtain ⟨hk1, hk2, hk3⟩ := rawKeepalive_rx c'
+  generalize hc'' : (rawKeepalive c').1 = c'' at hts hk1 hk2
+  generalize hkev : (rawKeepalive c').2 = kev at hts hk3
+  have hi2 : c''.inpkt = c.inpkt := hk1.trans hi
   by_cases hr : (!c'.running) = true
   · refine CEff.quiet ?_ ?_ <;> rw [hcs, hts, if_pos hr]
     · exact hi
@@ -126,6 +140,12 @@ theorem tunnelStep_eff (c : Cli) (ph : Phase) (inp : CInput) (hph : ph = .tunnel
     refine CEff.quiet ?_ ?_ <;> rw [hcs, he]
     · rw [(settle_rx r).1]; exact h1
     · rw [(settle_rx r).2]; exact h2
+  have quiet_of2 : ∀ r : Cli × List CEvent × Stop, r.1.inpkt = c.inpkt → tunws r.2.1 = [] →
+      tunnelStep c inp = after kev (settle r) → CEff ⟨c, .tunnel⟩ inp := by
+    intro r h1 h2 he
+    refine CEff.quiet ?_ ?_ <;> rw [hcs, he]
+    · rw [(after_rx kev _ hk3).1, (settle_rx r).1]; exact h1
+    · rw [(after_rx kev _ hk3).2, (settle_rx r).2]; exact h2
   cases inp with
   | tick =>
     have : (fire c (selectOf c) .tick).2 = .timeout := rfl
@@ -135,7 +155,7 @@ theorem tunnelStep_eff (c : Cli) (ph : Phase) (inp : CInput) (hph : ph = .tunnel
     by_cases hs : (selectOf c).tun = true
     · have : (fire c (selectOf c) (.tun f)).2 = .tun f := by unfold fire; dsimp only; rw [if_pos hs]
       rw [this] at hts
-      exact quiet_of _ ((tunnelTun_rx c' f).1.trans hi) (tunnelTun_rx c' f).2 hts
+      exact quiet_of2 _ ((tunnelTun_rx c'' f).1.trans hi2) (tunnelTun_rx c'' f).2 hts
     · have : (fire c (selectOf c) (.tun f)).2 = .timeout := by unfold fire; dsimp only; rw [if_neg hs]
       rw [this] at hts
       exact quiet_of _ ((timeoutBranch_rx c').1.trans hi) (timeoutBranch_rx c').2 hts
@@ -144,31 +164,31 @@ theorem tunnelStep_eff (c : Cli) (ph : Phase) (inp : CInput) (hph : ph = .tunnel
     rw [this] at hts
     dsimp only at hts
     unfold tunnelDnsInput at hts
-    by_cases hconn : c'.conn = .dnsNull
+    by_cases hconn : c''.conn = .dnsNull
     · rw [if_pos hconn] at hts
       dsimp only at hts
-      refine CEff.dns c' q rfl hi ?_ ?_ <;> rw [hcs, hts]
-      · rw [(settle_rx _).1]
-      · rw [(settle_rx _).2]
+      refine CEff.dns c'' q rfl hi2 ?_ ?_ <;> rw [hcs, hts]
+      · rw [(after_rx kev _ hk3).1, (settle_rx _).1]
+      · rw [(after_rx kev _ hk3).2, (settle_rx _).2]
     · rw [if_neg hconn] at hts
       dsimp only at hts
-      exact quiet_of _ ((readRaw_inpkt c' []).trans hi) rfl hts
+      exact quiet_of2 _ ((readRaw_inpkt c'' []).trans hi2) rfl hts
   | rawans b =>
     have : (fire c (selectOf c) (.rawans b)).2 = .dns (.rawans b) := rfl
     rw [this] at hts
     dsimp only at hts
     unfold tunnelDnsInput at hts
-    by_cases hconn : c'.conn = .dnsNull
+    by_cases hconn : c''.conn = .dnsNull
     · rw [if_pos hconn] at hts
       dsimp only at hts
-      obtain ⟨z1, z2⟩ := tunnelDns_rx c' Rq.zero
+      obtain ⟨z1, z2⟩ := tunnelDns_rx c'' Rq.zero
       rw [accepted_zero] at z1 z2
-      exact quiet_of _ (z1.trans hi) z2 hts
+      exact quiet_of2 _ (z1.trans hi2) z2 hts
     · rw [if_neg hconn] at hts
       dsimp only at hts
-      refine CEff.raw c' b rfl ?_ ?_ <;> rw [hcs, hts]
-      · rw [(settle_rx _).1]; exact (readRaw_inpkt c' b).trans hi
-      · rw [(settle_rx _).2]; rfl
+      refine CEff.raw c'' b rfl ?_ ?_ <;> rw [hcs, hts]
+      · rw [(after_rx kev _ hk3).1, (settle_rx _).1]; exact (readRaw_inpkt c'' b).trans hi2
+      · rw [(after_rx kev _ hk3).2, (settle_rx _).2]; rfl
 
 
 theorem waitdnsRound_inpkt {c c2 : Cli} {w : WaitIn} {rd : Int} (h : waitdnsRound c w = some (c2, rd)) :
